@@ -21,7 +21,8 @@ ASSUMPTIONS = ["monoband images when cbca is in the pipeline (cbca is documented
 GATES = {
     "asymmetric_masks": 2, "pipelines_with_aggregation": 1, "pipelines_with_confidence": 1, "pipelines_with_refinement": 1,
     "pipelines_with_filter": 1, "pipelines_with_filling": 1, "grids_on_both_sides": 1, "product_pairs_compared": 40,
-    "without_validation_compared": 5, "pipelines_with_multiscale": 1,
+    "without_validation_compared": 5, "pipelines_with_multiscale": 1, "second_image_with_bands_in_another_order": 1,
+
 }
 VARS = ["disparity_map", "validity_mask", "confidence_measure", "interpolated_coeff"]
 
@@ -113,9 +114,18 @@ def run_case(case, ctx):
     pipe = pipes.build_pipe(keys, params)
     bands = ["r", "g", "b"] if nb == 3 else None
 
+    # multiband pairs may store the same named bands in another order on the second image; a right dataset assembled by hand
+    # may carry its disparity grids without the optional disparity_source attribute
+    perm = [2, 0, 1] if (nb == 3 and case["i"] % 2 == 1) else None
+    no_src = False
+    ctx.gate("second_image_with_bands_in_another_order", int(perm is not None))
+
     def run(left_im, right_im, lm, rm, ld, rd, p=pipe):
         left = gen.make_dataset(left_im, ld, lm, bands=bands)
-        right = gen.make_dataset(right_im, rd, rm, bands=bands)
+        if perm is not None:
+            right_im = right_im[perm]
+        right = gen.make_dataset(right_im, rd, rm, bands=[bands[k] for k in perm] if perm is not None else bands,
+                                 disparity_source="absent" if (no_src and rd is not None) else "auto")
         l, r, _, _ = pipes.check_and_run(p, left, right)
         return l, r
 
